@@ -55,6 +55,17 @@ type target struct {
 type targetReply struct {
 	ID   string `json:"id"`
 	Host string `json:"host"`
+	Path string `json:"path"`
+}
+
+// targetBase strips the path prefix a tunnel target may carry (http://host:port/v1 -> http://host:port).
+func targetBase(tg string) (base, prefix string) {
+	if i := strings.Index(tg, "://"); i >= 0 {
+		if j := strings.Index(tg[i+3:], "/"); j >= 0 {
+			return tg[:i+3+j], tg[i+3+j:]
+		}
+	}
+	return tg, ""
 }
 
 func startTargets() (ts []target, stop func()) {
@@ -63,7 +74,7 @@ func startTargets() (ts []target, stop func()) {
 		return http.HandlerFunc(func(w http.ResponseWriter, r *http.Request) {
 			w.Header().Set("X-Target-Id", id)
 			w.Header().Set("Connection", "close")
-			json.NewEncoder(w).Encode(targetReply{ID: id, Host: r.Host})
+			json.NewEncoder(w).Encode(targetReply{ID: id, Host: r.Host, Path: r.URL.Path})
 		})
 	}
 	for i := 0; i < 5; i++ {
@@ -141,10 +152,20 @@ type expect struct {
 	Served   bool   `json:"served"`
 	ID       string `json:"id"`
 	HostSeen string `json:"host_seen,omitempty"`
+	PathSeen string `json:"path_seen,omitempty"`
 }
 
 func expectation(t tun, byURL map[string]target) expect {
-	tg := byURL[t.Target]
+	base, prefix := targetBase(t.Target)
+	tg := byURL[base]
+	e := expectation0(t, tg)
+	if e.Link == "http" && e.Served {
+		e.PathSeen = strings.TrimSuffix(prefix, "/") + "/probe"
+	}
+	return e
+}
+
+func expectation0(t tun, tg target) expect {
 	switch tg.Scheme {
 	case "tcp":
 		return expect{Link: "tcp", Served: true, ID: tg.ID}
@@ -175,6 +196,7 @@ type probeResult struct {
 	Served   bool   `json:"served,omitempty"`
 	ID       string `json:"id,omitempty"`
 	HostSeen string `json:"host_seen,omitempty"`
+	PathSeen string `json:"path_seen,omitempty"`
 	Status   int    `json:"status,omitempty"`
 	Err      string `json:"err,omitempty"`
 	TimedOut bool   `json:"timed_out,omitempty"`
@@ -224,7 +246,7 @@ func probe(ctx context.Context, c *client.Client, hostname, link string) probeRe
 	if id := resp.Header.Get("X-Target-Id"); id != "" {
 		var tr targetReply
 		_ = json.Unmarshal(body, &tr)
-		res.Served, res.ID, res.HostSeen = true, id, tr.Host
+		res.Served, res.ID, res.HostSeen, res.PathSeen = true, id, tr.Host, tr.Path
 	}
 	return res
 }
@@ -317,8 +339,18 @@ func (g *gen) options(t *tun) {
 	}
 }
 
+var pathPrefixes = []string{"", "", "/v1", "/v2", "/a/b", "/a/c/"}
+
+// withPrefix gives an http(s) target a path prefix (tcp targets have none).
+func (g *gen) withPrefix(u string) string {
+	if strings.HasPrefix(u, "tcp") {
+		return u
+	}
+	return u + pathPrefixes[g.rng.Intn(len(pathPrefixes))]
+}
+
 func (g *gen) tunnel() tun {
-	t := tun{Hostname: g.hostname(), Target: g.targets[g.rng.Intn(len(g.targets))].URL}
+	t := tun{Hostname: g.hostname(), Target: g.withPrefix(g.targets[g.rng.Intn(len(g.targets))].URL)}
 	g.options(&t)
 	return t
 }
@@ -333,8 +365,18 @@ func (g *gen) mutate(cur []tun) (next []tun, changes map[string]string) {
 			continue
 		case 1, 2:
 			old := t.Target
+			if base, _ := targetBase(old); !strings.HasPrefix(old, "tcp") && g.rng.Intn(3) == 0 {
+				// same scheme, host and port: only the path of the target changes
+				for i := 0; i < 20 && t.Target == old; i++ {
+					t.Target = g.withPrefix(base)
+				}
+				if t.Target != old {
+					changes[t.Hostname] = "target-path"
+					break
+				}
+			}
 			for t.Target == old {
-				t.Target = g.targets[g.rng.Intn(len(g.targets))].URL
+				t.Target = g.withPrefix(g.targets[g.rng.Intn(len(g.targets))].URL)
 			}
 			keep := t
 			g.options(&t)
@@ -457,7 +499,7 @@ func main() {
 			classify := func(h string, got probeResult, other string) string {
 				for _, w := range windowHistory[h] {
 					old := expectation(w.OldRoute, byURL)
-					if got.Served && old.Served && got.ID == old.ID && (old.Link == "tcp" || got.HostSeen == old.HostSeen) {
+					if got.Served && old.Served && got.ID == old.ID && (old.Link == "tcp" || got.HostSeen == old.HostSeen && got.PathSeen == old.PathSeen) {
 						return "stale-proxy:window-connection"
 					}
 					if !got.Served && !got.Refused && !old.Served {
@@ -512,6 +554,8 @@ func main() {
 					fail("stale-option:insecure", "hostname %s points to a self-signed https target with insecure=false, yet target %s answered", h, got.ID)
 				case want.Served && got.ID != want.ID:
 					fail("wrong-target", "hostname %s is configured for target %s but target %s answered", h, want.ID, got.ID)
+				case want.Served && want.Link == "http" && got.PathSeen != want.PathSeen:
+					fail("stale-target:path", "hostname %s is configured for target %s: the target saw the request path %q, with the current target it is %q", h, t.Target, got.PathSeen, want.PathSeen)
 				case want.Served && want.Link == "http" && got.HostSeen != want.HostSeen:
 					fail("stale-option:host-header", "hostname %s (headerMode %q, headerHost %q): the target saw Host %q, documented is %q", h, t.Mode, t.Host, got.HostSeen, want.HostSeen)
 				}
